@@ -129,6 +129,19 @@ CLAIMED = {
         "bodies excluded (CLI cannot see them).",
         "exhaustive small-alphabet sequences + Hypothesis; reference-model + differential (myst-anchors CLI) + round-trip (link resolution) oracles",
     ),
+    "C12": (
+        "A fixed 5-document tree in 4 directories: every link kind (11) x path style (relative, './', leading '/') x text "
+        "form (plain, strong, emphasis, code, mixed, empty) from every source document (exhaustive over the spelling "
+        "table), and Hypothesis-generated projects (3-8 documents in random directories, duplicate headings, labels, "
+        "non-document files, 4-14 links); output-based oracle on a full html build per project: each link's <a> is found "
+        "by its marker in the written page; href joined to the page path must be the target's page / an id on the "
+        "element holding the expected (k-th) heading / a byte-identical copy of the file; link text = explicit text with "
+        "nested tags or the target's title; missing targets: exactly one xref_missing warning at the link's line, text "
+        "kept; no warning for resolvable links; bounded search.",
+        "Names unique by construction (no xref_ambiguous); text of empty links to missing targets unconstrained; expected "
+        "fragments are validated against the written page, not predicted.",
+        "exhaustive spelling-table enumeration + Hypothesis projects; output-based validity oracle independent of the resolver (BeautifulSoup over the built site)",
+    ),
     "C13": (
         "Every config field x a type table of values written from the documented types (385 rows: valid spellings, wrong "
         "scalar / container / nested types; VALID / INVALID / UNSPECIFIED), Hypothesis-composed nested values for the "
